@@ -101,10 +101,37 @@
         assert!(m.tile_by_id.len() == rf.count());
     }
 
-// @h id=H4.1-K$k prop=C04,C10 rep="k:1-3" quick="1-2" cap=1800 mem=16 unwind=6 bounds="K=$k edits, each a symbolic choice of add(id,[c]) / remove(id) with id in {a,b}; a, b any u64 (possibly equal), contents any single byte (real aHash); after every step: lookup of a symbolic probe id (any u64), tile count, probe in listing, and the sizes of the three internal maps against a 2-slot reference map"
+// @h id=H4.1-K$k prop=C04,C10 rep="k:1-2" quick="1-1" cap=2400 mem=16 unwind=6 bounds="K=$k edits, each a symbolic choice of add(id,[c]) / remove(id) with id in {a,b}; a, b any u64 (possibly equal), contents any single byte (real aHash); after every step: lookup of a symbolic probe id (any u64), tile count, probe in listing, and the sizes of the three internal maps against a 2-slot reference map"
     /// under any edit history the store behaves like a map id -> bytes, and retains exactly one copy per distinct live content
     #[kani::proof]
     fn h4_1_history_k$k() {
+        let a: u64 = kani::any();
+        let b: u64 = kani::any();
+        let p: u64 = kani::any();
+        let mut m = TM::new(None);
+        let mut rf = RefMap::new(a, b);
+        let mut i = 0;
+        while i < $k {
+            let kind: u8 = kani::any();
+            let which: bool = kani::any();
+            let c: u8 = kani::any();
+            kani::assume(kind < 2);
+            step(&mut m, &mut rf, a, b, kind, which, c);
+            check_against(&mut m, &rf, p);
+            i += 1;
+        }
+        kani::cover!(rf.count() == $k.min(2));
+        kani::cover!(rf.count() == 0);
+        kani::cover!($k < 2 || (rf.count() == 2 && rf.distinct_contents() == 1));
+        kani::cover!($k < 2 || (rf.count() == 1 && a != b && p == a && rf.get(p).is_none()));
+        std::mem::forget(m);
+    }
+
+// @h id=H4.1s-K$k prop=C04,C10 rep="k:1-2" quick="1-2" cap=1800 mem=16 unwind=8 stubs="TileManager::calculate_hash -> injective packing (see H10.1)" bounds="K=$k edits, each a symbolic choice of add(id,[c]) / remove(id) with id in {a,b}; a, b any u64 (possibly equal), contents any single byte; after every step: lookup of a symbolic probe id (any u64), tile count, probe in listing, and the sizes of the three internal maps against a 2-slot reference map"
+    /// under any edit history the store behaves like a map id -> bytes, and retains exactly one copy per distinct live content
+    #[kani::proof]
+    #[kani::stub(crate::tile_manager::TileManager::calculate_hash, stub_hash)]
+    fn h4_1s_history_k$k() {
         let a: u64 = kani::any();
         let b: u64 = kani::any();
         let p: u64 = kani::any();
@@ -150,7 +177,7 @@
         assert!(r.is_err());
         std::mem::forget(r);
         check_against(&mut m, &rf, p);
-        kani::cover!(id == a && rf.get(a).is_some());
+        kani::cover!($k == 0 || (id == a && rf.get(a).is_some()));
         kani::cover!($k == 0 || rf.count() == 1);
         std::mem::forget(m);
     }
@@ -193,7 +220,7 @@
         std::mem::forget(r);
     }
 
-// @h id=H10.1-i$i prop=C10,C16,C02 rep="i:0-15" quick="0,5,10,15" cap=900 stubs="TileManager::calculate_hash -> injective packing of length and bytes (real aHash: H10.1r, injectivity on 1-byte contents: H10.h)" mem=20 unwind=8 bounds="logical content {a: [ca], b: [cb]}; id pair (i%4) of {(5,6) adjacent, (6,5) adjacent given in descending order, (5,9) gap, (2^63,3) far apart/top bit} concrete per instance (symbolic ids make the length of the vector handed to std's sort non-constant for symex: no result in 40 min); ca, cb, x any byte; history (i/4) of {0: add a, add b; 1: add b, add a; 2: add a [x], add b, replace a; 3: add a, add b [x], remove b, add b}; every map iteration inside finish() runs in an unconstrained order"
+// @h id=H10.1-i$i prop=C10,C16,C02 rep="i:0-15" quick="0,5,10" quick_C02="0,5" quick_C10="0,5" cap=900 stubs="TileManager::calculate_hash -> injective packing of length and bytes (real aHash: H10.1r, injectivity on 1-byte contents: H10.h)" mem=20 unwind=8 bounds="logical content {a: [ca], b: [cb]}; id pair (i%4) of {(5,6) adjacent, (6,5) adjacent given in descending order, (5,9) gap, (2^63,3) far apart/top bit} concrete per instance (symbolic ids make the length of the vector handed to std's sort non-constant for symex: no result in 40 min); ca, cb, x any byte; history (i/4) of {0: add a, add b; 1: add b, add a; 2: add a [x], add b, replace a; 3: add a, add b [x], remove b, add b}; every map iteration inside finish() runs in an unconstrained order"
     /// finish() is a canonical function of the logical content: ids sorted, each distinct content stored once, adjacent equal tiles merged into one run, counters exact - whatever history produced the content and whatever order the hash maps iterate in
     #[kani::proof]
     #[kani::stub(crate::tile_manager::TileManager::calculate_hash, stub_hash)]
@@ -249,7 +276,7 @@
         std::mem::forget(v1);
     }
 
-// @h id=H10.2-i$i prop=C10,C16,C04 rep="i:0-5" quick="0,3,4" cap=900 mem=20 unwind=8 stubs="TileManager::calculate_hash -> injective packing (see H10.1)" bounds="one reader-backed tile (1 byte at a symbolic offset 0..3 of a 4-byte backing stream of arbitrary bytes) and one in-memory tile [c]; id pair (i%3) of {(5,6), (6,5), (5,9)} = (reader-backed id, in-memory id); i/3 = order of registration"
+// @h id=H10.2-i$i prop=C10,C16,C04 rep="i:0-5" quick="0,4" quick_C16="0" quick_C04="4" cap=900 mem=20 unwind=8 stubs="TileManager::calculate_hash -> injective packing (see H10.1)" bounds="one reader-backed tile (1 byte at a symbolic offset 0..3 of a 4-byte backing stream of arbitrary bytes) and one in-memory tile [c]; id pair (i%3) of {(5,6), (6,5), (5,9)} = (reader-backed id, in-memory id); i/3 = order of registration"
     /// duplicates between reader-backed and in-memory tiles are stored once (and merged into one run when adjacent); the result is the same canonical function of the logical content
     #[kani::proof]
     #[kani::stub(crate::tile_manager::TileManager::calculate_hash, stub_hash)]
